@@ -12,6 +12,10 @@ import hub_ctl as hc
 # still deliver every byte that was hashed)
 CONTENTS = {"c1": b"A" * 9000 + b"one\n", "c2": b"B" * 12000 + b"two\n" + b"\0" * 150_000, "c3": b"\0" * 262_144}          # c3: exactly one 256 KiB block (chunked streaming must not drop a final full block)
 CFG = {}
+# Hub.tla's visible program counters -> the libc call the real server is parked on when it takes that step
+LABEL_CALL = {"put": "open", "plock": "flock", "dlock": "flock", "pread": "stat", "dread": "stat", "pren": "rename",
+              "punlock": "funlock", "dunlock": "funlock", "dunl": "unlink", "get": "open"}
+LABEL_CH = 2                            # Ch of the MC_HubSched_*.cfg files
 
 # programs mirrored from spec/MC_Hub.tla (server id -> list of requests)
 PROGRAMS = {
@@ -149,7 +153,9 @@ def execute(job):
     rng = random.Random(job.get("seed", 0))
     kill = job.get("kill")
 
-    state = {"phase": 0}
+    state = {"phase": 0, "li": 0}
+    labels = job.get("labels")          # [[server, pc], ...] of a HubSched behaviour (kill entries removed)
+    nwr = {}
 
     def choose(cands, step):
         if job.get("policy") == "list_race":
@@ -165,7 +171,36 @@ def execute(job):
                 state["phase"] = 1
                 return by[1]
             return cands[0]
-        if order is not None and step < len(order):
+        if labels is not None:
+            # spec -> code replay by ACTION LABEL (HubSched's history is <<server, pc>>): a model step is matched to the real call
+            # it stands for, so a Put streamed in more write() calls than the model's Ch chunks, or a refused Delete (no unlink:
+            # the model still spends its `dunl` step), no longer shifts every later step of the schedule
+            while state["li"] < len(labels):
+                sid, lab = labels[state["li"]]
+                c = next((x for x in cands if x.sid == sid), None)
+                if c is None:
+                    break                                   # that server cannot move now: nothing to match, fall through
+                call, pth = c.pending["call"], c.pending["path"] or ""
+                if lab == "put":
+                    nwr[sid] = 0
+                if lab == "pwrite":
+                    want = "write" if nwr.get(sid, 0) < LABEL_CH else "unlink"      # the step after the last chunk is the failed verify
+                    nwr[sid] = nwr.get(sid, 0) + 1
+                else:
+                    want = LABEL_CALL.get(lab)
+                if want is None or call == want:
+                    state["li"] += 1
+                    return c
+                if call == "write" and pth.endswith(hc.STG):
+                    if lab == "pwrite":
+                        nwr[sid] -= 1
+                    return c                                # one more chunk of the same private staging file: same model step
+                if lab == "pwrite" or (lab == "dunl" and call == "funlock"):
+                    state["li"] += 1                        # fewer real writes than Ch / a refused Delete: the model step has no call
+                    continue
+                state["li"] += 1
+                return c
+        if order is not None and labels is None and step < len(order):
             for c in cands:
                 if c.sid == order[step]:
                     return c
